@@ -1,0 +1,275 @@
+//! Verification hook (only compiled with `--cfg adlt_verif`): a step executor for the remote server.
+//!
+//! It owns an in-memory duplex stream wrapped by a server role `WebSocket` and a
+//! `file_context: Option<FileContext>` exactly like a connection thread of `remote()` and executes
+//! script steps read from stdin with the real handler functions:
+//!
+//! * `C <text>`  -> `process_incoming_text_message`
+//! * `T <n>`     -> `process_file_context` with a receive budget of n msgs (`T inf` = until the parser finished)
+//! * `RESET`     -> close (if open) and start with a fresh websocket
+//! * `Q`         -> quit
+//!
+//! After each step one json line is printed: the frames written by the step and a snapshot of the session state.
+use super::*;
+use std::cell::Cell;
+
+thread_local! {
+    /// None = not armed (regular behaviour), Some(n) = n more msgs may be received in this tick
+    static BUDGET: Cell<Option<usize>> = const { Cell::new(None) };
+}
+
+/// to be called at the top of the receive loop. Returns false if the loop shall be left.
+pub(super) fn take_budget() -> bool {
+    BUDGET.with(|b| match b.get() {
+        None => true,
+        Some(0) => false,
+        Some(n) => {
+            b.set(Some(n - 1));
+            true
+        }
+    })
+}
+
+/// to be called on a receive timeout. If armed the budget taken is given back and true is returned (retry).
+pub(super) fn retry_on_timeout() -> bool {
+    BUDGET.with(|b| match b.get() {
+        None => false,
+        Some(n) => {
+            b.set(Some(n.saturating_add(1)));
+            true
+        }
+    })
+}
+
+/// if armed the deadline is pushed out so that a tick is independent of the wall clock
+pub(super) fn adjust_deadline(deadline: std::time::Instant) -> std::time::Instant {
+    if BUDGET.with(|b| b.get().is_some()) {
+        deadline + std::time::Duration::from_secs(3600)
+    } else {
+        deadline
+    }
+}
+
+#[derive(Default)]
+struct MemStream {
+    out: Vec<u8>,
+}
+impl Read for MemStream {
+    fn read(&mut self, _buf: &mut [u8]) -> std::io::Result<usize> {
+        Err(std::io::Error::new(
+            std::io::ErrorKind::WouldBlock,
+            "no data",
+        ))
+    }
+}
+impl Write for MemStream {
+    fn write(&mut self, buf: &[u8]) -> std::io::Result<usize> {
+        self.out.extend_from_slice(buf);
+        Ok(buf.len())
+    }
+    fn flush(&mut self) -> std::io::Result<()> {
+        Ok(())
+    }
+}
+
+fn char4(v: u32) -> String {
+    String::from_utf8_lossy(&v.to_le_bytes()).to_string()
+}
+
+fn decode_frames(buf: &[u8]) -> Vec<serde_json::Value> {
+    let mut frames = vec![];
+    let mut i = 0;
+    while i + 2 <= buf.len() {
+        let opcode = buf[i] & 0x0f;
+        let masked = buf[i + 1] & 0x80 != 0;
+        let mut len = (buf[i + 1] & 0x7f) as usize;
+        i += 2;
+        if len == 126 {
+            len = u16::from_be_bytes([buf[i], buf[i + 1]]) as usize;
+            i += 2;
+        } else if len == 127 {
+            len = u64::from_be_bytes(buf[i..i + 8].try_into().unwrap()) as usize;
+            i += 8;
+        }
+        if masked {
+            i += 4; // a server never masks
+        }
+        let payload = &buf[i..i + len];
+        i += len;
+        match opcode {
+            1 => frames.push(serde_json::json!({"t": String::from_utf8_lossy(payload)})),
+            2 => {
+                let v = match bincode::decode_from_slice::<remote_types::BinType, _>(
+                    payload,
+                    BINCODE_CONFIG,
+                ) {
+                    Ok((bt, _)) => match bt {
+                        remote_types::BinType::FileInfo(fi) => {
+                            serde_json::json!({"b":"FileInfo","nr_msgs":fi.nr_msgs})
+                        }
+                        remote_types::BinType::Lifecycles(lcs) => {
+                            serde_json::json!({"b":"Lifecycles","lcs":lcs.iter().map(|l|serde_json::json!({"id":l.id,"ecu":char4(l.ecu),"nr_msgs":l.nr_msgs,"start":l.start_time,"end":l.end_time})).collect::<Vec<_>>()})
+                        }
+                        remote_types::BinType::DltMsgs((id, msgs)) => {
+                            serde_json::json!({"b":"DltMsgs","id":id,"msgs":msgs.iter().map(|m|serde_json::json!({
+                                "index":m.index,"reception_time":m.reception_time,"timestamp_dms":m.timestamp_dms,
+                                "ecu":char4(m.ecu),"apid":char4(m.apid),"ctid":char4(m.ctid),"lifecycle_id":m.lifecycle_id,
+                                "htyp":m.htyp,"mcnt":m.mcnt,"verb_mstp_mtin":m.verb_mstp_mtin,"noar":m.noar,"payload":m.payload_as_text})).collect::<Vec<_>>()})
+                        }
+                        remote_types::BinType::EacInfo(e) => {
+                            serde_json::json!({"b":"EacInfo","ecus":e.len()})
+                        }
+                        remote_types::BinType::PluginState(p) => {
+                            serde_json::json!({"b":"PluginState","n":p.len()})
+                        }
+                        remote_types::BinType::StreamInfo(s) => {
+                            serde_json::json!({"b":"StreamInfo","stream_id":s.stream_id,"nr_stream_msgs":s.nr_stream_msgs,
+                                "processed":s.nr_file_msgs_processed,"total":s.nr_file_msgs_total})
+                        }
+                        remote_types::BinType::Progress(p) => {
+                            serde_json::json!({"b":"Progress","cur":p.cur_progress,"max":p.max_progress})
+                        }
+                    },
+                    Err(e) => serde_json::json!({"b":"undecodable","err":e.to_string()}),
+                };
+                frames.push(v);
+            }
+            o => frames.push(serde_json::json!({"other": o})),
+        }
+    }
+    frames
+}
+
+fn snapshot(fc: &Option<FileContext>) -> serde_json::Value {
+    match fc {
+        None => serde_json::json!({"open": false}),
+        Some(fc) => serde_json::json!({
+            "open": true,
+            "collect": format!("{:?}", fc.collect_mode),
+            "paused": fc.paused,
+            "all_msgs": fc.all_msgs.len(),
+            "drained": fc.drained_all_msgs,
+            "finished": fc.did_inform_parser_processing_finished,
+            "pending_extract": fc.pending_extract.is_some(),
+            "has_parser": fc.parsing_thread.is_some(),
+            "streams": fc.streams.iter().map(|s| serde_json::json!({
+                "id": s.id, "is_stream": s.is_stream, "one_pass": s.one_pass, "binary": s.binary,
+                "filters_active": s.filters_active,
+                "nfilters": [s.filters[FilterKind::Positive].len(), s.filters[FilterKind::Negative].len(), s.filters[FilterKind::Event].len()],
+                "to_send": [s.msgs_to_send.start, s.msgs_to_send.end],
+                "sent": [s.msgs_sent.start, s.msgs_sent.end],
+                "processed": s.all_msgs_last_processed_len,
+                "filtered": s.filtered_msgs.len(),
+                "is_done": s.is_done,
+            })).collect::<Vec<_>>(),
+        }),
+    }
+}
+
+pub fn add_subcommand(app: Command) -> Command {
+    app.subcommand(
+        Command::new("verif-driver")
+            .hide(true)
+            .about("verification hook: step executor for the remote server (stdin script)"),
+    )
+}
+
+thread_local! {
+    static LAST_PANIC: std::cell::RefCell<Option<String>> = const { std::cell::RefCell::new(None) };
+}
+
+pub fn run_driver() -> Result<(), Box<dyn std::error::Error>> {
+    let log = slog::Logger::root(slog::Discard, slog::o!());
+    std::panic::set_hook(Box::new(|info| {
+        let loc = info
+            .location()
+            .map(|l| format!("{}:{}", l.file(), l.line()))
+            .unwrap_or_default();
+        let msg = if let Some(s) = info.payload().downcast_ref::<&str>() {
+            s.to_string()
+        } else if let Some(s) = info.payload().downcast_ref::<String>() {
+            s.clone()
+        } else {
+            String::new()
+        };
+        LAST_PANIC.with(|p| {
+            // only panics of the driver thread itself are step results
+            *p.borrow_mut() = Some(format!("{loc}|{msg}"))
+        });
+    }));
+    let new_ws = || {
+        WebSocket::from_raw_socket(
+            MemStream::default(),
+            tungstenite::protocol::Role::Server,
+            None,
+        )
+    };
+    let mut ws = new_ws();
+    let mut fc: Option<FileContext> = None;
+    let stdin = std::io::stdin();
+    let mut line = String::new();
+    let stdout = std::io::stdout();
+    loop {
+        line.clear();
+        if stdin.lock().read_line(&mut line)? == 0 {
+            break;
+        }
+        let l = line.trim_end_matches(['\n', '\r']);
+        let (kind, rest) = l.split_once(' ').unwrap_or((l, ""));
+        let mut panicked = false;
+        match kind {
+            "Q" => break,
+            "RESET" => {
+                if fc.is_some() {
+                    let r = std::panic::catch_unwind(std::panic::AssertUnwindSafe(|| {
+                        process_incoming_text_message(&log, "close".to_string(), &mut fc, &mut ws)
+                    }));
+                    panicked = r.is_err();
+                }
+                fc = None;
+                ws = new_ws();
+            }
+            "C" => {
+                let r = std::panic::catch_unwind(std::panic::AssertUnwindSafe(|| {
+                    process_incoming_text_message(&log, rest.to_string(), &mut fc, &mut ws)
+                }));
+                panicked = r.is_err();
+            }
+            "T" => {
+                let n = if rest == "inf" {
+                    usize::MAX - 1
+                } else {
+                    rest.parse::<usize>().unwrap_or(0)
+                };
+                BUDGET.with(|b| b.set(Some(n)));
+                let r = std::panic::catch_unwind(std::panic::AssertUnwindSafe(|| {
+                    if let Some(fc) = &mut fc {
+                        let _ = process_file_context(&log, fc, &mut ws);
+                    }
+                }));
+                BUDGET.with(|b| b.set(None));
+                panicked = r.is_err();
+            }
+            _ => {}
+        }
+        let _ = ws.write_pending();
+        let frames = decode_frames(&ws.get_ref().out);
+        ws.get_mut().out.clear();
+        let panic_info = if panicked {
+            LAST_PANIC.with(|p| p.borrow_mut().take())
+        } else {
+            None
+        };
+        let res = serde_json::json!({"frames": frames, "state": snapshot(&fc), "panic": panic_info});
+        let mut o = stdout.lock();
+        writeln!(o, "{}", res)?;
+        o.flush()?;
+    }
+    // leave cleanly: stop the threads
+    if fc.is_some() {
+        let _ = std::panic::catch_unwind(std::panic::AssertUnwindSafe(|| {
+            process_incoming_text_message(&log, "close".to_string(), &mut fc, &mut ws)
+        }));
+    }
+    Ok(())
+}
